@@ -12,6 +12,8 @@ b64 = lambda b: base64.b64encode(b).decode()
 XML_GOOD = b'<?xml version="1.0" encoding="utf-8"?>\n<root>\n  <el k="v">t</el>\n  <other/>\n</root>\n'
 PIPES = {
     "detector-less": {"argv": ["--codemod-include", "pixee:python/use-set-literal,pixee:python/unused-imports"], "good": b"import os\nx = set([1])\ny = set([2, 3])\n", "ext": ".py"},
+    # a codemod that also records a dependency for the project's manifest: the manifest is one of the "other files" whose outcome must not depend on the bad file
+    "dependency": {"argv": ["--codemod-include", "pixee:python/use-defusedxml"], "good": b"import xml.sax\nxml.sax.parse('f')\nxml.sax.parseString(b'<a/>', None)\n", "ext": ".py", "extra_files": {"requirements.txt": b"requests==2.31.0\n"}},
     "semgrep-detected": {"argv": ["--codemod-include", "pixee:python/requests-verify"], "good": b"import requests\nrequests.get('u', verify=False)\nrequests.post('v', verify=False)\n", "ext": ".py"},
     "sast": {"argv": ["--sonar-hotspots-json", "{res}/sonar.json", "--codemod-include", "sonar:python/secure-random"], "good": b"import random\nx = random.random()\ny = random.randint(0, 9)\n", "ext": ".py",
              "findings": [(2, 4, 19), (3, 4, 24)]},
@@ -51,6 +53,7 @@ def plan(tier, seed):
             rf = {"sonar.json": json.dumps({"hotspots": [{"key": f"H-{nm}-{k}", "rule": "python:S2245", "status": "TO_REVIEW", "component": "proj:" + nm, "textRange": {"startLine": l, "endLine": l, "startOffset": a, "endOffset": b}}
                                                          for nm in names for k, (l, a, b) in enumerate(P["findings"])]})} if pname == "sast" else {}
             base = {nm: b64(P["good"]) for nm in names}
+            base.update({k_: b64(v_) for k_, v_ in (P.get("extra_files") or {}).items()})
             group = f"{pname}|n{n}"
             jobs.append(mkjob(pname, n, None, None, base, rf, {"snap": False}, group))
             cms_ = P["argv"][P["argv"].index("--codemod-include") + 1].split(",")
@@ -110,6 +113,7 @@ def evaluate(job, run, base):
         V(f"run-aborted/{fk}/{cm}", f"{cm}: the run did not complete (rc={run['rc']} exc={run['exc']}) with fault {fk} on {job['bad']}"); return v, True
     faults_hit = [e for e in run["trace"] if e["k"] == "fault"]
     injected = fk in ("invalid-utf8", "nul-byte", "syntax-error", "latin1-cookie", "empty") or fk.startswith("invalid-utf8-") or bool(faults_hit)
+    if fk == "failpoint" and faults_hit and not any(e["k"] == "fault_escaped" for e in run["trace"]): return None, False      # raised inside a function whose caller handles exceptions itself: the file WAS processed
     if not injected: return None, False      # fault never reached (e.g. failpoint j beyond this file's entries): not a decisive case
     pf = per_file(run); bad = job["bad"]
     for name, b in base.items():
